@@ -11,6 +11,10 @@ MCNext ==
     \/ /\ on
        /\ \E o \in Outcomes : \E d \in (IF WithDrops THEN BOOLEAN ELSE {FALSE}) : \E leak \in BOOLEAN :
             LET ev == [e |-> "req", outcome |-> o, drop |-> d] IN Req(ev, leak) /\ Log(ev)
+    \/ /\ on /\ Len(held) < 2
+       /\ \E o \in {"pok", "perr"} : LET ev == [e |-> "hold", outcome |-> o] IN Hold(ev) /\ Log(ev)
+    \/ /\ on /\ held # <<>>
+       /\ LET ev == [e |-> "resume"] IN Resume(ev) /\ Log(ev)
 MCSpec == MCInit /\ [][MCNext]_<<tvars, hist>>
 GenBound == Len(hist) <= GenDepth
 PrintBehaviour == (GenMode /\ Len(hist) = GenDepth) => PrintT(<<"REPLAY", ToJson(hist)>>)
